@@ -207,10 +207,30 @@ class Spec:
                     return None
                 r = 1 if a == b else 0
                 return r if cn == N.PARTIAL_EQ else 1 - r
+        cr = self._const_return(t)
+        if cr is not None:
+            return cr
         if cn == 'cachelito_core::cache_entry::CacheEntry::is_expired' and len(args) == 2:
             # is_expired(None) is false (that shape is what C06-K1 verifies)
             if self.fields.get('ttl') == 0 and self._operand_is_config(args[1], 'ttl'):
                 return 0
+        return None
+
+    def _const_return(self, t):
+        """value of a call to a local function all of whose return-value definitions are one constant"""
+        cache = self.prog.__dict__.setdefault('_const_ret', {})
+        for cb in self.prog.lookup(t):
+            if cb.kind not in ('fn', 'assoc_fn') or cb.local_ty(0) != 'bool':
+                return None
+            if cb.id not in cache:
+                vals = set()
+                for d in cb.defs.get(0, []):
+                    if d[0] == 'stmt' and 'use' in d[3] and 'const' in d[3]['use'] and 'int' in d[3]['use']['const']:
+                        vals.add(d[3]['use']['const']['int'])
+                    else:
+                        vals.add(None)
+                cache[cb.id] = vals.pop() if len(vals) == 1 else None
+            return cache[cb.id]
         return None
 
     def _operand_is_config(self, o, name, depth=0):
@@ -229,7 +249,9 @@ class Spec:
     def _sync_closures(self, t):
         if callee_name(t) in STORES_CLOSURE:
             return []
-        return self.prog.closures_passed(t)
+        if self.weigher is not None and not getattr(self.weigher, 'descend', True):
+            return []  # wrappers: user closures / futures are opaque
+        return [c for c in self.prog.closures_passed(t) if c.kind == 'closure']
 
     def _closure_outcomes(self, t, env):
         """[(ret value|None, {captured tracked local: value|None})] or None when no closure is involved"""
@@ -773,11 +795,12 @@ class Weigher:
     functions (each kind at most once).  Effects inside synchronously-run closures are *not*
     included here: Spec adds them per closure outcome."""
 
-    def __init__(self, prog, fields, vocab, oracles=None, classify=None, extra=None, own_key=None):
+    def __init__(self, prog, fields, vocab, oracles=None, classify=None, extra=None, own_key=None, descend=True):
         """own_key: (function body id, parameter index) of the key the analysed operation is about;
         a store removal of exactly that key is counted as 'Srepl' (replacement / purge of the
         operation's own entry), any other store removal as 'S-' (a victim)"""
         self.own_key = own_key
+        self.descend = descend  # False: only primitive effects of the analysed body (wrappers)
         self.prog = prog
         self.vocab = list(vocab)
         self.dims = len(self.vocab)
@@ -791,7 +814,7 @@ class Weigher:
         if key in self._memo:
             return self._memo[key]
         effs = list(self.se.kinds_at(body, b))
-        for (cb, how) in self.se._callees(body, b, hows=('direct',)):
+        for (cb, how) in (self.se._callees(body, b, hows=('direct',)) if self.descend else []):
             for e in sorted(self.se.summary(cb), key=str):
                 effs.append(self.se._translate(body, b, cb, e))
         ks = []
@@ -802,7 +825,7 @@ class Weigher:
                 ks.append(k)
         if self.extra:
             ks += list(self.extra(body, b))
-            for (cb, how) in self.se._callees(body, b, hows=('direct',)):
+            for (cb, how) in (self.se._callees(body, b, hows=('direct',)) if self.descend else []):
                 ks += sorted(self._extra_summary(cb))
         self._memo[key] = ks
         return ks
